@@ -320,6 +320,71 @@ func genSpecForX(p *packages.Package, pc *PkgContracts, executable bool) (string
 		sort.Slice(out, func(i, j int) bool { return out[i].Name < out[j].Name })
 		return out
 	}
+	// variables visible to `atcall` clauses: caller locals in scope at the first call of
+	// that callee, plus the callee's parameters (bound to the actual arguments)
+	pc.atcallVars = func(fs *FuncSpec, callee string) []localVar {
+		fd := findDecl(p, fs)
+		if fd == nil || fd.Body == nil {
+			return nil
+		}
+		var call *ast.CallExpr
+		ast.Inspect(fd.Body, func(n ast.Node) bool {
+			if c, ok := n.(*ast.CallExpr); ok && call == nil {
+				if id := calleeIdent(c); id != nil && id.Name == callee {
+					call = c
+				}
+			}
+			return call == nil
+		})
+		if call == nil {
+			return nil
+		}
+		used := map[string]bool{}
+		for _, c := range fs.AtCalls[callee] {
+			toks, _ := scanSpec(c.Text)
+			for _, tk := range toks {
+				if tk.tok == token.IDENT {
+					used[tk.lit] = true
+				}
+			}
+		}
+		seen := map[string]bool{}
+		for _, prm := range fs.allParams() {
+			seen[prm.Name] = true
+		}
+		var out []localVar
+		// callee parameters
+		if fn, ok := p.TypesInfo.Uses[calleeIdent(call)].(*types.Func); ok {
+			sig := fn.Type().(*types.Signature)
+			for i := 0; i < sig.Params().Len(); i++ {
+				v := sig.Params().At(i)
+				if v.Name() != "" && used[v.Name()] && !seen[v.Name()] {
+					seen[v.Name()] = true
+					out = append(out, localVar{v.Name(), types.TypeString(v.Type(), qual)})
+				}
+			}
+		}
+		var objs []*types.Var
+		for id, obj := range p.TypesInfo.Defs {
+			v, ok := obj.(*types.Var)
+			if !ok || v.IsField() || id.Pos() < fd.Pos() || id.Pos() > fd.End() {
+				continue
+			}
+			if !used[v.Name()] || v.Pos() >= call.Pos() || v.Parent() == nil || !v.Parent().Contains(call.Pos()) {
+				continue
+			}
+			objs = append(objs, v)
+		}
+		sort.Slice(objs, func(i, j int) bool { return objs[i].Pos() > objs[j].Pos() })
+		for _, v := range objs {
+			if seen[v.Name()] {
+				continue
+			}
+			seen[v.Name()] = true
+			out = append(out, localVar{v.Name(), types.TypeString(v.Type(), qual)})
+		}
+		return out
+	}
 	// first pass to discover extra imports needed by local types
 	if _, err := pc.genSpecFileX(imports, locals, executable); err != nil {
 		return "", err
